@@ -13,7 +13,29 @@ Definition B (id par : N) (h w : Z) (sane valid dpos resume : bool) : block :=
 (* one delivery: block, (inMainChain, isOrphan, err<>nil), main chain ids (tip first), LIH after *)
 Definition step : Type := block * (bool * bool * bool) * list N * Z.
 
-Inductive case := Hist (id : N) (crc rs : Z) (cap : nat) (steps : list step).
+(* GuardGrid: the outputs of the real State.IsIrreversible for one
+   (CRCOnlyDPOSHeight, RevertToPOWStartHeight) on the grid
+   mode (PoW, DPoS) x LIH in ls x cur 0..maxcur x detach 0..maxcur+1 *)
+Inductive case :=
+| Hist (id : N) (crc rs : Z) (cap : nat) (steps : list step)
+| GuardGrid (id : N) (crc rs : Z) (ls : list Z) (maxcur : nat) (outs : list bool).
+
+Fixpoint upto (n : nat) : list Z :=   (* 0 .. n-1 *)
+  match n with O => [] | S k => upto k ++ [Z.of_nat k] end.
+
+Definition guard_grid (crc rs : Z) (ls : list Z) (maxcur : nat) : list bool :=
+  flat_map (fun dpos =>
+    flat_map (fun l =>
+      flat_map (fun cur =>
+        map (fun d => is_irreversible (mkParams crc rs 0) dpos l cur d) (upto (maxcur + 2)))
+        (upto (maxcur + 1))) ls) [false; true].
+
+Fixpoint bools_eqb (a b : list bool) : bool :=
+  match a, b with
+  | [], [] => true
+  | x :: a', y :: b' => Bool.eqb x y && bools_eqb a' b'
+  | _, _ => false
+  end.
 
 Fixpoint ids_eqb (a b : list N) : bool :=
   match a, b with
@@ -36,6 +58,8 @@ Definition check (c : case) : option N :=
   match c with
   | Hist id crc rs cap steps =>
       if replay (mkParams crc rs cap) init steps then None else Some id
+  | GuardGrid id crc rs ls maxcur outs =>
+      if bools_eqb (guard_grid crc rs ls maxcur) outs then None else Some id
   end.
 
 Definition mismatches (cs : list case) : list N :=
